@@ -600,7 +600,13 @@ func NewPackage(pkgPath string, pkg *ast.Package, conf *Config) (p *gogen.Packag
 	}
 
 	gofiles := make([]*ast.File, 0, len(pkg.GoFiles))
-	for _, gof := range pkg.GoFiles {
+	gonames := make([]string, 0, len(pkg.GoFiles))
+	for name := range pkg.GoFiles {
+		gonames = append(gonames, name)
+	}
+	sort.Strings(gonames) // deterministic order of errors (and of the outline)
+	for _, name := range gonames {
+		gof := pkg.GoFiles[name]
 		f := fromgo.ASTFile(gof, 0)
 		gofiles = append(gofiles, f)
 		ctx := &blockCtx{
@@ -670,10 +676,15 @@ func isOverloadFunc(name string) bool {
 }
 
 func initGopPkg(ctx *pkgCtx, pkg *gogen.Package, gopSyms map[string]bool) {
-	for name, f := range ctx.syms {
-		if gopSyms[name] {
-			continue
+	names := make([]string, 0, len(ctx.syms))
+	for name := range ctx.syms {
+		if !gopSyms[name] {
+			names = append(names, name)
 		}
+	}
+	sort.Strings(names) // load the symbols of Go files in a deterministic order
+	for _, name := range names {
+		f := ctx.syms[name]
 		if _, ok := f.(*typeLoader); ok {
 			ctx.loadType(name)
 		} else if isOverloadFunc(name) {
